@@ -15,6 +15,8 @@
 #include <sys/wait.h>
 #include <unistd.h>
 
+#include <condition_variable>
+#include <mutex>
 #include <string>
 #include <thread>
 #include <vector>
@@ -271,7 +273,7 @@ static string op_name(const Op& op) {
 
 static void run() {
   vfs::reset();
-  if (!g_fd0_probe_failure.empty()) fail(g_probe_key == "fd0" ? "random_data/first_use_with_descriptor_0" : "random_data/never_recovers_from_failed_first_open", g_probe_key, g_fd0_probe_failure);
+  if (!g_fd0_probe_failure.empty()) fail(g_probe_key == "fd0" ? "random_data/first_use_with_descriptor_0" : (g_probe_key == "first_open_failed" ? "random_data/never_recovers_from_failed_first_open" : (g_probe_key == "fork_during_refill" ? "random_data/unusable_in_forked_child" : "random_data/called_during_static_initialisation")), g_probe_key, g_fd0_probe_failure);
   set_entry_errno((int)pick({0, 0, EINTR, EAGAIN, ERANGE, EBADF}, "env.errno_on_entry"));
   int mode = choose(6, "dev.mode");
   uint64_t dseed = choose(1 << 20, "dev.seed");
@@ -466,10 +468,134 @@ static void probe_first_use_without_free_descriptor() {
   g_probe_key = "first_open_failed";
 }
 
+// ---- the code under test called while the program's static objects are still being constructed (a global in some
+// other translation unit draws an id in its constructor). This translation unit is linked before the library, so
+// the object below is constructed before any namespace-scope object of Random.cc.
+static string g_static_init_failure;
+static struct StaticInitCaller {
+  StaticInitCaller() {
+    // in a forked copy of the half-initialised process, so that this process keeps its own "first use" for later
+    pid_t pid = fork();
+    if (pid < 0) return;
+    if (pid == 0) {
+      // (standard input is /dev/null here, and nothing may take longer than a few seconds)
+      int nul = open("/dev/null", O_RDONLY);
+      if (nul >= 0) dup2(nul, 0);
+      alarm(5);
+      int code = 0;
+      uint64_t before = vfs::urandom_consumed();
+      try {
+        uint8_t id[16];
+        memset(id, 0, sizeof(id));
+        phosg::random_data(id, sizeof(id));
+        if (vfs::urandom_consumed() == before) code = 3;
+      } catch (const std::exception&) {
+        code = 2;
+      }
+      _exit(code);
+    }
+    int status = 0;
+    while (waitpid(pid, &status, 0) < 0 && errno == EINTR) {
+    }
+    const char* when = " when called from the constructor of a static object of another translation unit (before the library's own static objects existed)";
+    if (WIFEXITED(status) && WEXITSTATUS(status) == 0) return;
+    if (WIFEXITED(status) && WEXITSTATUS(status) == 3) g_static_init_failure = string("random_data returned 16 bytes without reading the entropy device") + when;
+    else if (WIFEXITED(status) && WEXITSTATUS(status) == 2) g_static_init_failure = string("random_data threw") + when;
+    else g_static_init_failure = string("the process died in random_data") + when;
+  }
+} g_static_init_caller;
+
+// ---- fork() while another thread is inside the refill: the child is a copy of the forking thread only. If the
+// library guards the refill with a lock, that lock is held in the child by a thread that does not exist there.
+static std::mutex g_park_mutex;
+static std::condition_variable g_park_cv;
+static bool g_parked = false, g_release = false, g_park_armed = false;
+static void park_in_device_read() {
+  std::unique_lock<std::mutex> lk(g_park_mutex);
+  if (!g_park_armed) return;
+  g_park_armed = false;
+  g_parked = true;
+  g_park_cv.notify_all();
+  g_park_cv.wait(lk, [] { return g_release; });
+}
+
+static void probe_fork_while_refilling() {
+  fflush(stdout);
+  fflush(stderr);
+  pid_t pid = fork();
+  if (pid < 0) return;
+  if (pid == 0) {
+    int devnull = open("/dev/null", O_WRONLY);
+    if (devnull >= 0) dup2(devnull, 2);
+    vfs::reset();
+    vfs::set_urandom(5, 4242);
+    g_park_armed = true;
+    vfs::urandom_set_read_hook(park_in_device_read);
+    std::thread a([]() {
+      uint8_t buf[64];
+      try {
+        phosg::random_data(buf, sizeof(buf));
+      } catch (...) {
+      }
+    });
+    {
+      std::unique_lock<std::mutex> lk(g_park_mutex);
+      g_park_cv.wait(lk, [] { return g_parked; });
+    }
+    pid_t gc = fork(); // thread A is inside the device read (and inside whatever the library holds around it)
+    if (gc == 0) {
+      vfs::urandom_set_read_hook(nullptr);
+      alarm(3);
+      int code = 0;
+      try {
+        std::string big(8192, '\0');
+        phosg::random_data(big.data(), big.size());
+        for (int i = 0; i < 100; i++) {
+          int64_t v = phosg::random_int(1, 6);
+          if (v < 1 || v > 6) code = 4;
+        }
+      } catch (const std::exception&) {
+        code = 2;
+      }
+      _exit(code);
+    }
+    int st = 0;
+    while (gc > 0 && waitpid(gc, &st, 0) < 0 && errno == EINTR) {
+    }
+    {
+      std::unique_lock<std::mutex> lk(g_park_mutex);
+      g_release = true;
+      g_park_cv.notify_all();
+    }
+    a.join();
+    int code = 0;
+    if (gc < 0) code = 0;
+    else if (WIFSIGNALED(st) && WTERMSIG(st) == SIGALRM) code = 5;
+    else if (WIFEXITED(st)) code = WEXITSTATUS(st);
+    else code = 6;
+    _exit(code);
+  }
+  int status = 0;
+  while (waitpid(pid, &status, 0) < 0 && errno == EINTR) {
+  }
+  if (WIFEXITED(status) && WEXITSTATUS(status) == 0) return;
+  if (!g_fd0_probe_failure.empty()) return;
+  g_probe_key = "fork_during_refill";
+  if (WIFEXITED(status) && WEXITSTATUS(status) == 5) g_fd0_probe_failure = "a process forked while another of its threads was refilling from the entropy device; in the child random_data never returned (3 s): it waits for something only the vanished thread could release";
+  else if (WIFEXITED(status) && WEXITSTATUS(status) == 2) g_fd0_probe_failure = "a process forked while another of its threads was refilling from the entropy device; in the child random_data threw";
+  else if (WIFEXITED(status) && WEXITSTATUS(status) == 4) g_fd0_probe_failure = "a process forked while another of its threads was refilling from the entropy device; in the child random_int left [lo,hi]";
+  else g_fd0_probe_failure = "a process forked while another of its threads was refilling from the entropy device; the child died in random_data";
+}
+
 static void process_init() {
   vfs::simulate_getrandom(true);
   probe_first_use_with_descriptor_0();
   probe_first_use_without_free_descriptor();
+  probe_fork_while_refilling();
+  if (g_fd0_probe_failure.empty() && !g_static_init_failure.empty()) {
+    g_fd0_probe_failure = g_static_init_failure;
+    g_probe_key = "static_initialisation";
+  }
   // random_data opens the device through a function-local static on its first call ever; do that
   // before any run so that every run starts from the same process state
   vfs::reset();
